@@ -306,3 +306,42 @@ class World:
         p = subprocess.Popen(argv, stdout=out, stderr=err, stdin=subprocess.DEVNULL,
                              env=cli_env(e), cwd=cwd or self.dir, start_new_session=True)
         return p, trace_path, out.name, err.name
+
+
+def run_raw(args, trace_path=None, cwd=None, purge_under=None):
+    """Run the Runner in-process on real directories (no generated world); returns Run (out, failed, exc)."""
+    from zope.testrunner.runner import Runner
+    run = Run()
+    run.main_pid = os.getpid()
+    gs = GlobalState()
+    cap = Capture()
+    saved_trace = os.environ.get('ZTV_TRACE')
+    if trace_path:
+        os.environ['ZTV_TRACE'] = trace_path
+    try:
+        sys.stdout, sys.stderr = cap.out, cap.err
+        try:
+            runner = Runner([], [ZT_MAIN] + list(args), script_parts=[ZT_MAIN], cwd=cwd or gs.cwd)
+            run.runner = runner
+            runner.run()
+            run.failed = runner.failed
+        except BaseException as e:  # noqa: BLE001
+            run.exc = e
+            run.exc_tb = traceback.format_exc()
+    finally:
+        sys.stdout, sys.stderr = gs.stdout, gs.stderr
+        if saved_trace is None:
+            os.environ.pop('ZTV_TRACE', None)
+        else:
+            os.environ['ZTV_TRACE'] = saved_trace
+        run.out = cap.text()
+        gs.restore()
+        if purge_under:
+            from . import fstree
+            fstree.purge_modules_under(purge_under)
+        try:
+            from zope.testrunner.find import _layer_name_cache
+            _layer_name_cache.clear()
+        except Exception:  # noqa: BLE001
+            pass
+    return run
